@@ -92,6 +92,7 @@ func check(c Case) vk.Verdict {
 	if c.Store != "memory" {
 		st = vk.NewStorage()
 		st.NoTTL = c.Store == "vk-nottl"
+		st.Retain = c.Store == "vk-retain"
 	}
 	admitted := 0
 	app := newLimiter(c, st, func(fiber.Ctx) { admitted++ })
@@ -224,7 +225,7 @@ func check(c Case) vk.Verdict {
 }
 
 func genCase(t *rapid.T) Case {
-	c := Case{Algo: rapid.SampledFrom([]string{"fixed", "sliding"}).Draw(t, "algo"), Store: rapid.SampledFrom([]string{"memory", "vk", "vk-nottl"}).Draw(t, "store"),
+	c := Case{Algo: rapid.SampledFrom([]string{"fixed", "sliding"}).Draw(t, "algo"), Store: rapid.SampledFrom([]string{"memory", "vk", "vk-nottl", "vk-retain"}).Draw(t, "store"),
 		Exp: rapid.IntRange(1, 10).Draw(t, "exp"), Max: rapid.IntRange(1, 5).Draw(t, "max"), T0: rapid.IntRange(0, 1000).Draw(t, "t0")}
 	switch rapid.IntRange(0, 3).Draw(t, "skip") {
 	case 0:
@@ -280,9 +281,10 @@ func checkConc(c ConcCase) vk.Verdict {
 	vk.SetNow(5_000_000)
 	s := vk.NewSched()
 	var st *vk.Storage
-	if c.Store == "vk" {
+	if c.Store != "memory" {
 		st = vk.NewStorage()
 		st.Sched = s
+		st.Retain = c.Store == "vk-retain"
 	}
 	var mu sync.Mutex
 	ran := map[string]int{}
@@ -373,7 +375,7 @@ func checkConc(c ConcCase) vk.Verdict {
 
 var propConc = vk.Register(&vk.Prop[ConcCase]{Property: property, Name: "concurrent", Check: checkConc, Quick: 600, Thorough: 2500,
 	Gen: func(t *rapid.T) ConcCase {
-		c := ConcCase{Algo: rapid.SampledFrom([]string{"fixed", "sliding"}).Draw(t, "algo"), Store: rapid.SampledFrom([]string{"memory", "vk", "vk"}).Draw(t, "store"),
+		c := ConcCase{Algo: rapid.SampledFrom([]string{"fixed", "sliding"}).Draw(t, "algo"), Store: rapid.SampledFrom([]string{"memory", "vk", "vk", "vk-retain"}).Draw(t, "store"),
 			Limit: rapid.IntRange(1, 3).Draw(t, "limit")}
 		c.Keys = rapid.SliceOfN(rapid.SampledFrom([]string{"a", "a", "b"}), 2, 4).Draw(t, "keys")
 		c.Picks = rapid.SliceOfN(rapid.IntRange(0, 3), 0, 60).Draw(t, "picks")
